@@ -7,9 +7,11 @@ RULE = ('one record per (scalar, u) through curve25519 / curve25519_base / x2551
         'scalars: random, 0, all-ones, all 256 single-bit scalars, clamp-edge patterns; u: random, 0, 1, 2, 9, p-1, p, p+1, 2^255-20.., 2^255-1, 2^256-1, small-order '
         'values and their bit-255 aliases, random with bit 255 set; base(k) == dh(k, 9); both parties of random exchanges; public keys crafted (inverse scalar on the prime-order subgroup of curve or twist) so that the shared secret is a chosen small / limb-boundary / near-p value; RFC 7748 iteration; '
         'distinct = (entry point, scalar class, u class)')
-ASSUMPTIONS = ['Python-int Montgomery ladder pinned by RFC 7748 5.2 vectors']
+ASSUMPTIONS = ['bulk phase: the force-32bits backend serves as a second implementation for locating rare disagreements; a disagreement is reported only when the Python model shows the default build wrong, and sampled outputs are always checked against the Python model', 'Python-int Montgomery ladder pinned by RFC 7748 5.2 vectors']
 FLOORS = {'evaluations': 1000, 'distinct': 600}
 THOROUGH_ROUNDS = 8   # thorough tier: generator passes with derived seeds (runner.gen_rounds)
+# bulk phase (cxv/bulk.py): (kind, calls, block); second implementation = force-32bits backend, the Python model judges every disagreement and the samples
+BULK = {'quick': [('x25519', 1 << 16, 1024), ('x25519_base', 1 << 14, 1024)], 'thorough': [('x25519', 1 << 24, 4096), ('x25519_base', 1 << 22, 4096)]}
 P = 2 ** 255 - 19
 SMALL = [0, 1, 325606250916557431795983626356110631294008115727848805560023387167927233504,
          39382357235489614581723060781553021112529911719440698176882885853963445705823, P - 1, P, P + 1]
